@@ -418,4 +418,12 @@ def run(P, ctx):
     clause4(P, res)
     clause5(P, res)
     clause6(P, res)
+    # a pending async receive is woken when an item it could take is left behind: the baton rule of C05-6, judged for the futures
+    from rules import c05
+    sub = Result("C06")
+    c05.clause6(P, sub)
+    res.rule("C06-7", "a pending receive future is woken for items another receiver leaves behind: in wake-one protocols whose publisher can carry several items per notify, every "
+                      "successful dequeue (also the one made by a batch/stream poll) is followed by the baton that wakes the next waiter — the instances of C05-6")
+    for i in sub.instances:
+        res.add("C06-7", i.key.split(":", 2)[2], i.status, i.detail, i.witness, i.nontrivial, i.obligations, i.where)
     return res
